@@ -60,6 +60,7 @@ fn plan(prop: &str, tier: &str, scale: f64) -> Plan {
             } else {
                 vec![(1, 70_000, 0), (4, 140_000, 1), (2, 70_000, 0), (1, 36_000, 2), (2, 70_000, 2), (1, 36_000, 3), (2, 70_000, 3)]
             };
+            p.w3.push((3, if thorough { 70_000 } else { 34_000 }, 4));
         }
         "C07" => {
             p.w2_n = if thorough { 7 } else { 6 };
@@ -68,6 +69,7 @@ fn plan(prop: &str, tier: &str, scale: f64) -> Plan {
             } else {
                 vec![(1, 40_000, 0), (3, 100_000, 1), (1, 36_000, 2), (2, 70_000, 2), (1, 36_000, 3), (2, 70_000, 3)]
             };
+            p.w3.push((3, if thorough { 70_000 } else { 34_000 }, 4));
         }
         "C09" | "C10" | "C14" => {
             p.w1_small /= 4;
@@ -81,7 +83,7 @@ fn plan(prop: &str, tier: &str, scale: f64) -> Plan {
                 p.w3_tok = if thorough { 140_000 } else { 40_000 };
             } else {
                 // lookups on arenas with worn-out and retired slots
-                p.w3 = if thorough { vec![(1, 70_000, 0), (3, 140_000, 1), (1, 40_000, 2)] } else { vec![(1, 36_000, 0), (2, 70_000, 1)] };
+                p.w3 = if thorough { vec![(1, 70_000, 0), (3, 140_000, 1), (1, 40_000, 2), (4, 140_000, 4)] } else { vec![(1, 36_000, 0), (2, 70_000, 1), (3, 34_000, 4)] };
             }
         }
         "C12" => {
@@ -94,6 +96,8 @@ fn plan(prop: &str, tier: &str, scale: f64) -> Plan {
             p.w1_large = 0;
             p.w2_n = 0;
             p.c13 = if thorough { 1_500_000 } else { 150_000 };
+            // after clear() like new - also after the 32768th and the 65536th clear()
+            p.w3 = vec![(3, if thorough { 140_000 } else { 34_000 }, 4)];
         }
         "C16" => {
             p.w1_small /= 2;
@@ -108,7 +112,7 @@ fn plan(prop: &str, tier: &str, scale: f64) -> Plan {
             p.w1_large = 120;
             p.w2_n = 0;
             // generation churn belongs to the battery too: where recycled nodes land, when slots retire
-            p.w3 = vec![(1, 40_000, 0), (2, 70_000, 2), (3, 60_000, 1)];
+            p.w3 = vec![(1, 40_000, 0), (2, 70_000, 2), (3, 60_000, 1), (3, 34_000, 4), (100_000, 0, 5)];
         }
         _ => {}
     }
@@ -303,7 +307,7 @@ fn main() {
             let parts: Vec<&str> = w.split(|c| c == '-' || c == '@').collect();
             let slots: usize = parts.get(1).and_then(|s| s.trim_end_matches("slots").parse().ok()).unwrap_or(1);
             let cycles: u64 = parts.get(2).and_then(|s| s.trim_end_matches("cycles").parse().ok()).unwrap_or(70_000);
-            let sub: u8 = if w.contains("-companions-subtree") { 3 } else if w.contains("-companions") { 2 } else if w.contains("-subtree") { 1 } else { 0 };
+            let sub: u8 = if w.contains("-sizes") { 5 } else if w.contains("-clearchurn") { 4 } else if w.contains("-companions-subtree") { 3 } else if w.contains("-companions") { 2 } else if w.contains("-subtree") { 1 } else { 0 };
             let rseed = meta.get("seed").and_then(|s| s.parse().ok()).unwrap_or(seed);
             let ctx = Ctx { seed: rseed, ..ctx.clone() };
             run_w3(&ctx, slots, cycles, sub, &mut cov)
